@@ -91,9 +91,19 @@ def ref_opinion(formula, valuation, spec_cache={}):
     ov = {('S1', *wbspec.rc(a)): v for a, v in valuation}
     env_ = evalr.Env(sp, ov)
     try:
-        outs, flags = evalr.outcomes(env_, 'S1', 'Z9', strict_text=True)
+        outs, flags = evalr.outcomes(env_, 'S1', 'Z9', strict_text=True, text_arith='excel')
     except (evalr.NoOpinion, ParseError, evalr.Cycle):
         return None
+    LAST_REF['text_in_arith'] = evalr.LAST.get('text_in_arith', False)
+    LAST_REF['python_model'] = None
+    if LAST_REF['text_in_arith']:
+        # defect model of KF-C01-text-operand-arithmetic: the emitted operators are Python's (str*int repeats, str+str joins, else TypeError)
+        try:
+            LAST_REF['python_model'] = [evalr.evaluate_once(evalr.Env(sp, ov), 'S1', 'Z9', strict_text=True, text_arith='python')[0]]
+        except Exception:  # noqa: BLE001 - no prediction
+            # what the enclosing operators make of the mis-computed text is not modelled (a repeated text compared with a number, ...):
+            # such a formula is left unjudged, as every formula with a text operand in arithmetic was before this finding was recorded
+            return None
     alts = []
     for kw in ({'prec': FLAT, 'right': False}, {'prec': FLAT, 'right': True}):
         try:
@@ -103,6 +113,9 @@ def ref_opinion(formula, valuation, spec_cache={}):
             alts.append(('fail', type(e).__name__))
     nontrivial = any(not _same(outs[0], a) for a in alts)
     return outs, nontrivial
+
+
+LAST_REF = {}
 
 
 def _same(a, b):
@@ -231,6 +244,9 @@ SPECIAL = ['=A1%%', '=5%%', '=A1%%+B1', '=(A1)%%', '=-A1%', '=-A1%*-B1%', '=-(A1
 def classify(f, out):
     if '%%' in f.replace(' ', '') and out.kind == 'LIB_EXC' and out.exc_name == 'E2PyclParserException' and out.phase == 'translate':
         return 'KF-C01-chained-percent-rejected'
+    # a TEXT value reached an arithmetic operator in the reference evaluation AND the observed outcome is the one Python's operators give
+    if LAST_REF.get('text_in_arith') and LAST_REF.get('python_model') is not None and outcome_matches(out, LAST_REF['python_model'], exact=False):
+        return 'KF-C01-text-operand-arithmetic'
     return None
 
 
